@@ -3,6 +3,7 @@ package main
 // Translation of contract expressions to SMT terms in a given program state.
 
 import (
+	"go/token"
 	"fmt"
 	"os"
 	"regexp"
@@ -261,6 +262,10 @@ func (c *ExprCtx) constValue(v constant.Value, t types.Type) TV {
 
 func (c *ExprCtx) ident(name string) TV {
 	e := c.e
+	if os.Getenv("GOWP_DEBUG") == "names" && name == "entry" {
+		_, inBound := c.bound[name]
+		fmt.Fprintf(os.Stderr, "ident-enter entry: bound=%v fr=%v lenient=%v\n", inBound, c.fr != nil, c.lenient)
+	}
 	if v, ok := c.bound[name]; ok {
 		return v
 	}
@@ -305,6 +310,13 @@ func (c *ExprCtx) ident(name string) TV {
 	}
 	if c.fr != nil {
 		if v, ok := c.localAtPoint(name); ok {
+			if os.Getenv("GOWP_DEBUG") == "names" {
+				bi := -1
+				if c.block != nil {
+					bi = c.block.Index
+				}
+				fmt.Fprintf(os.Stderr, "ident %q at block %d of %s -> %v\n", name, bi, c.fr.fn.Name(), v.V)
+			}
 			return v
 		}
 	}
@@ -355,6 +367,9 @@ func (c *ExprCtx) localAtPoint(name string) (TV, bool) {
 					if id := in.Expr; id != nil {
 						if obj := in.Object(); obj != nil && obj.Name() == name {
 							if _, isVar := obj.(*types.Var); isVar {
+								if os.Getenv("GOWP_DEBUG") == "names" {
+									fmt.Fprintf(os.Stderr, "resolve %q: DebugRef in block %d -> %s (addr=%v)\n", name, b.Index, in.X.Name(), in.IsAddr)
+								}
 								if in.IsAddr {
 									pv := e.asPtr(valOf(in.X), in.X.Type())
 									return TV{V: e.load(c.st, pv.A, obj.Type()), Typ: obj.Type()}, true
@@ -369,6 +384,9 @@ func (c *ExprCtx) localAtPoint(name string) (TV, bool) {
 					}
 				case *ssa.Alloc:
 					if in.Comment == name {
+						if os.Getenv("GOWP_DEBUG") == "names" {
+							fmt.Fprintf(os.Stderr, "resolve %q: Alloc in block %d -> %s\n", name, b.Index, in.Name())
+						}
 						pv := e.asPtr(valOf(in), in.Type())
 						et := in.Type().Underlying().(*types.Pointer).Elem()
 						return TV{V: e.load(c.st, pv.A, et), Typ: et}, true
@@ -866,6 +884,16 @@ func (c *ExprCtx) call(x CCall) TV {
 				c.fail("wrap needs constant width")
 			}
 			return TV{V: App(SInt, "mod", c.intExpr(x.Args[0]), IntBig(pow2(uint(k.Int64()))))}
+		case "swrap":
+			// swrap(x, bits): two's complement signed wrap (Go's intN arithmetic)
+			k, ok := litValue(c.intExpr(x.Args[1]))
+			if !ok {
+				c.fail("swrap needs constant width")
+			}
+			m := IntBig(pow2(uint(k.Int64())))
+			h := IntBig(pow2(uint(k.Int64() - 1)))
+			u := App(SInt, "mod", Add(c.intExpr(x.Args[0]), h), m)
+			return TV{V: Sub(u, h)}
 		case "b2i":
 			return TV{V: Ite(c.boolExpr(x.Args[0]), IntLit(1), IntLit(0))}
 		case "addr":
@@ -1321,18 +1349,55 @@ func (c *ExprCtx) lvalue(x CExpr) (Addr, types.Type, bool) {
 		if _, shadow := c.bound[x.Name]; shadow {
 			return Addr{}, nil, false
 		}
-		for _, b := range c.fr.fn.Blocks {
-			for _, in := range b.Instrs {
-				al, ok := in.(*ssa.Alloc)
-				if !ok || al.Comment != x.Name {
-					continue
+		// the declaration in scope at the program point: walk the dominator chain backwards; a
+		// register-held variable of that name (DebugRef that is not an address) shadows any
+		// memory-resident variable of the same name declared elsewhere in the function
+		b := c.block
+		i := c.idx
+		for b != nil {
+			if i > len(b.Instrs) {
+				i = len(b.Instrs)
+			}
+			for k := i - 1; k >= 0; k-- {
+				switch in := b.Instrs[k].(type) {
+				case *ssa.DebugRef:
+					if obj := in.Object(); obj != nil && obj.Name() == x.Name {
+						if _, isVar := obj.(*types.Var); isVar && in.IsAddr {
+							if al, isAl := in.X.(*ssa.Alloc); isAl {
+								if v, ok := c.fr.vals[al]; ok {
+									pv := e.asPtr(v, al.Type())
+									return pv.A, al.Type().Underlying().(*types.Pointer).Elem(), true
+								}
+							}
+						}
+						if _, isVar := obj.(*types.Var); isVar && !in.IsAddr {
+							// a read of a memory-resident variable shows up as a load of its cell
+							if ld, isLoad := in.X.(*ssa.UnOp); isLoad && ld.Op == token.MUL {
+								if al, isAl := ld.X.(*ssa.Alloc); isAl && al.Comment == x.Name {
+									if v, ok := c.fr.vals[al]; ok {
+										pv := e.asPtr(v, al.Type())
+										return pv.A, al.Type().Underlying().(*types.Pointer).Elem(), true
+									}
+								}
+							}
+							return Addr{}, nil, false
+						}
+					}
+				case *ssa.Alloc:
+					if in.Comment != x.Name {
+						continue
+					}
+					v, ok := c.fr.vals[in]
+					if !ok {
+						continue
+					}
+					pv := e.asPtr(v, in.Type())
+					return pv.A, in.Type().Underlying().(*types.Pointer).Elem(), true
 				}
-				v, ok := c.fr.vals[al]
-				if !ok {
-					continue
-				}
-				pv := e.asPtr(v, al.Type())
-				return pv.A, al.Type().Underlying().(*types.Pointer).Elem(), true
+			}
+			b = b.Idom()
+			if b != nil {
+				i = len(b.Instrs)
 			}
 		}
 		return Addr{}, nil, false
